@@ -171,7 +171,13 @@ def script_sx(rdefs, ops):
 def make_renderers(rdefs):
     classes = [DefaultSQLRenderer, DefaultDBMLRenderer]
     for handlers, dbmode in rdefs:
-        class R(BaseRenderer):
+        # a partial renderer is either built on BaseRenderer, or extends a default renderer (inheriting render_db) with a registry of
+        # its own: the registry of the class in use is what counts, never the one of a parent class
+        base = BaseRenderer
+        if dbmode[0] == 'dbml' and len(handlers) % 2 == 1:
+            base = DefaultDBMLRenderer      # (DefaultSQLRenderer overrides render() with the attribute check, so it is not a neutral base)
+
+        class R(base):
             model_renderers = {}
         for kind, h in handlers:
             if h[0] == 'const':
